@@ -273,6 +273,15 @@ def reorderGlyphs(font: ttLib.TTFont, new_glyph_order: List[str]):
         if tag in font:
             font[tag].cff.topDictIndex[0].CharStrings
 
+    # HVAR / VVAR without an advance mapping look delta sets up by glyph ID
+    # (implicit mapping). Make that mapping explicit, keyed by glyph name,
+    # before the glyph IDs change.
+    for tag, attr in (("HVAR", "AdvWidthMap"), ("VVAR", "AdvHeightMap")):
+        if tag in font and getattr(font[tag].table, attr, None) is None:
+            mapping = ot.VarIdxMap()
+            mapping.mapping = {g: i for i, g in enumerate(old_glyph_order)}
+            setattr(font[tag].table, attr, mapping)
+
     font.setGlyphOrder(new_glyph_order)
 
     coverage_containers = {"GDEF", "GPOS", "GSUB", "MATH"}
